@@ -1,6 +1,9 @@
 import Driver.Proto
 import PqModel.Codec
+import PqModel.Lz4Encode
 import PqModel.Spec.BlockCodecs
+import PqModel.Spec.Inflate
+import PqModel.Spec.InflateFixed
 
 /-! C20 ops: run the pool model of compress/compress.go over a history with the toy stream
 family plugged in (the Go side plugs the same toy streams into the real
@@ -94,8 +97,53 @@ def blockOp (x : String) (f : List UInt8 → Except PqModel.Spec.BlockCodecs.Err
     | .ok out => s!"ok {toHex out}"
     | .error e => s!"err {showErr e}"
 
+def showInflateErr : PqModel.Spec.Inflate.Err → String
+  | .fuel => "fuel" | .truncated => "truncated" | .badBlockType => "bad-block-type"
+  | .badStoredLen => "bad-stored-len" | .badCode => "bad-code" | .badSymbol => "bad-symbol"
+  | .badDistance => "bad-distance" | .badLengths => "bad-lengths" | .oversubscribed => "oversubscribed"
+  | .noEndOfBlock => "no-end-of-block" | .badMagic => "bad-magic" | .badMethod => "bad-method"
+  | .badFlags => "bad-flags" | .badHeaderCrc => "bad-header-crc" | .badCrc => "bad-crc"
+  | .badSize => "bad-size"
+
+def inflateOp (x : String) (f : List UInt8 → Except PqModel.Spec.Inflate.Err (List UInt8)) : String :=
+  match parseHex? x with
+  | none => "bad-op"
+  | some b => match f b with
+    | .ok out => s!"ok {toHex out}"
+    | .error e => s!"err {showInflateErr e}"
+
+/-- instrumentation only (not part of the spec): the BTYPE of every block the spec reader walks
+through, for the coverage histogram of the check -/
+def blockTypes : Nat → PqModel.Spec.Inflate.BitReader → Array UInt8 → List Nat → List Nat
+  | 0, _, _, acc => acc.reverse
+  | fuel + 1, r, out, acc =>
+    match PqModel.Spec.Inflate.readBit r with
+    | .error _ => acc.reverse
+    | .ok (final, r1) =>
+      match PqModel.Spec.Inflate.readBits 2 r1 with
+      | .error _ => acc.reverse
+      | .ok (t, r2) =>
+        match PqModel.Spec.Inflate.block t r2 out with
+        | .error _ => (t :: acc).reverse
+        | .ok (r3, out3) => if final then (t :: acc).reverse else blockTypes fuel r3 out3 (t :: acc)
+
 def handle (toks : List String) : Option String :=
   match toks with
+  /- `inflate.btypes <gzip member without optional header fields>`: block types met -/
+  | ["inflate.btypes", x] => some <|
+    match parseHex? x with
+    | none => "bad-op"
+    | some b =>
+      match b with
+      | _ :: _ :: _ :: flg :: _ :: _ :: _ :: _ :: _ :: _ :: d =>
+        if flg != 0 then "ok -" else s!"ok {showList toString (blockTypes (8 * d.length + 1) ⟨[], d⟩ #[] [])}"
+      | _ => "ok -"
+  /- spec readers of PqModel/Spec/Inflate.lean (RFC 1951 / RFC 1952) and the stored-block
+     reference encoder -/
+  | ["gzip.decode", x] => some <| inflateOp x PqModel.Spec.Inflate.gunzip
+  | ["inflate.decode", x] => some <| inflateOp x PqModel.Spec.Inflate.inflate
+  | ["inflate.fixedenc", x] => some <| inflateOp x (fun b => .ok (PqModel.Spec.Inflate.fixedLiterals b))
+  | ["gzip.stored", x] => some <| inflateOp x (fun b => .ok (PqModel.Spec.Inflate.gzipStored b))
   | "codec.run" :: cfg :: pol :: fuel :: ops => some <|
     match parseCfg? cfg, parseNat? fuel, ops.mapM parseCall? with
     | some cfg, some fuel, some calls =>
@@ -121,6 +169,12 @@ def handle (toks : List String) : Option String :=
       | some (none, len) => s!"ok err {len}"
       | none => "ok none"
     | _, _, _, _ => "bad-op"
+  /- `codec.lz4encbuf <cap(dst)> <len(src)>`: compress/lz4/lz4.go Encode, length of the buffer
+     handed to CompressBlock = capacity of the slice Encode returns -/
+  | ["codec.lz4encbuf", dc, sl] => some <|
+    match parseNat? dc, parseNat? sl with
+    | some dc, some sl => s!"ok {(lz4Encode ⟨fun _ _ => none⟩ dc (List.replicate sl 0)).2}"
+    | _, _ => "bad-op"
   /- spec block decoders / reference encoders of PqModel/Spec/BlockCodecs.lean -/
   | ["codec.snappydec", x] => some <| blockOp x PqModel.Spec.BlockCodecs.snappyDec
   | ["codec.lz4dec", x] => some <| blockOp x PqModel.Spec.BlockCodecs.lz4Dec
